@@ -87,9 +87,17 @@ def run_check(tier, seed):
         tk = ticks_of(tab)
         ns = range(-400, 401) if tier == "thorough" else list(range(-400, 401, 9)) + [-1, 1, 2, -2, 349, -349, 350, -350, 564, -564]
         triples = []
-        for t in tk:
-            for n in ns:
-                triples.append([t, n, milli(price_ticks_away(t / 1000.0, n, floats))])
+
+        def away(t, n):
+            try:
+                return milli(price_ticks_away(t / 1000.0, n, floats))
+            except Exception:       # an exception is a wrong answer, not a failure of the check
+                return -1
+        for i, t in enumerate(tk):
+            # every tick: the moves that land exactly on / one beyond either end of the ladder
+            edge = {len(tk) - 1 - i, len(tk) - i, len(tk) - i + 1, -i, -i - 1, -i + 1}
+            for n in sorted(set(ns) | {e for e in edge if -1200 <= e <= 1200}):
+                triples.append([t, n, away(t, n)])
         for ch in chunks(triples, 8000):
             add("ticks", tab=tab, triples=ch)
     # line ladders with the half- and whole-unit intervals the exchange uses
@@ -139,11 +147,21 @@ def validation_rows(tier, seed):
             # the live client reads the account currency from the exchange's account details
             from unittest import mock
             from betfairlightweight.resources import AccountDetails
+            from betfairlightweight.exceptions import APIError
             bc = mock.Mock()
             bc.lightweight = False
-            bc.account.get_account_details.return_value = AccountDetails(**{"currencyCode": cur, "discountRate": 0.0})
+            details = AccountDetails(**{"currencyCode": cur, "discountRate": 0.0})
+            if live == "fault_first":
+                # the first poll of the account details fails (swallowed), the minimums are read in that window
+                # (any validation does), a later poll succeeds
+                bc.account.get_account_details.side_effect = [APIError(None, "getAccountDetails", {}, Exception("down")), details, details]
+            else:
+                bc.account.get_account_details.return_value = details
             c = clients.BetfairClient(bc, min_bet_validation=validate)
             c.update_account_details()
+            if live == "fault_first":
+                _ = (c.min_bet_size, c.min_bet_payout, c.min_bsp_liability)
+                c.update_account_details()
             return c
 
         class C(clients.SimulatedClient):
@@ -156,7 +174,7 @@ def validation_rows(tier, seed):
     finest_on, finest_off = [2.01, 3.33, 999.99], [2.005, 1000.01]
     sizes = [0.0, -1.0, 0.001, 0.005, 0.01, 0.5, 0.99, 0.999, 1.0, 1.001, 1.01, 2.0, 2.5, 5.0, 10.0, 9.99, 19.99, 20.0, 150.0, 4000.0, 2.345]
     curs = ["GBP", "EUR", "USD", "HKD", "AUD", "DKK", "HUF"] if tier == "thorough" else ["GBP", "EUR", "HKD"]
-    for cur, live in [(c, l) for c in curs for l in (False, True)]:
+    for cur, live in [(c, l) for c in curs for l in (False, True, "fault_first")]:
         cp = currency_parameters[cur]
         acct_sizes = sorted(set(sizes + [cp["min_bet_size"], cp["min_bet_size"] - 0.01, cp["min_bet_size"] - 0.001, cp["min_bet_size"] + 0.01, cp["min_bsp_liability"], cp["min_bsp_liability"] - 0.01, cp["min_bsp_liability"] + 0.01,
                                       cp["min_bet_payout"] / 2.0, cp["min_bet_payout"] / 4.0, cp["min_bet_payout"] / 5.0]))
@@ -184,8 +202,9 @@ def validation_rows(tier, seed):
                             t = Trade("1.1", 1, 0, strategy)
                             order = t.create_order(side, LimitOrder(price=p, size=sz, price_ladder_definition=lad))
                             judge(order, {"exchange": "BETFAIR", "type": "LIMIT", "side": side, "ladder": lad, "price": milli(p), "size": milli(sz), "line": [0, 0, 1]})
-                for (lo, hi, st) in [(0.5, 300.5, 0.5), (0.0, 200.0, 1.0)]:
-                    for p in [0.5, 1.0, 150.5, 151.0, 300.5, 301.0, 0.25, 200.0, 0.0]:
+                # (two line markets with the same range and different intervals meet the same control instance, in both orders)
+                for (lo, hi, st) in [(0.5, 300.5, 0.5), (0.0, 200.0, 1.0), (0.0, 100.0, 1.0), (0.0, 100.0, 0.5), (1.0, 50.0, 0.5), (1.0, 50.0, 1.0)]:
+                    for p in [0.5, 1.0, 150.5, 151.0, 300.5, 301.0, 0.25, 200.0, 0.0, 10.5, 11.0, 49.5, 50.0, 99.5]:
                         t = Trade("1.1", 1, 0, strategy)
                         lri = LineRangeInfo(marketUnit="R", interval=st, minUnitValue=lo, maxUnitValue=hi)
                         order = t.create_order(side, LimitOrder(price=p, size=2.0, price_ladder_definition="LINE_RANGE", line_range_info=lri))
